@@ -43,6 +43,32 @@ def _classic_safis() -> tuple[list[int], list[int]]:
     return found[0], found[1]
 
 
+def _default_path_asn4() -> bool:
+    """`AttributeCollection.pack_attribute`: is the default AS_PATH `[local_asn]` built with
+    `make_aspath([...], asn4=True)` (4-octet storage) or with the 2-octet default of make_aspath?"""
+    from exabgp.bgp.message.update.attribute.aspath import ASPath
+    from exabgp.bgp.message.update.attribute.collection import AttributeCollection
+
+    default_kw = inspect.signature(ASPath.make_aspath).parameters['asn4'].default
+    tree = ast.parse(textwrap.dedent(inspect.getsource(AttributeCollection.pack_attribute)))
+    found = []
+    for node in ast.walk(tree):
+        if isinstance(node, ast.Call) and isinstance(node.func, ast.Attribute) and node.func.attr == 'make_aspath':
+            if node.args and isinstance(node.args[0], ast.List) and node.args[0].elts:
+                kw = {k.arg: k.value for k in node.keywords}
+                if 'asn4' in kw:
+                    assert isinstance(kw['asn4'], ast.Constant) and isinstance(kw['asn4'].value, bool), ast.dump(kw['asn4'])
+                    found.append(bool(kw['asn4'].value))
+                elif len(node.args) > 1:
+                    assert isinstance(node.args[1], ast.Constant), ast.dump(node.args[1])
+                    found.append(bool(node.args[1].value))
+                else:
+                    found.append(bool(default_kw))
+    if len(found) != 1:
+        raise RuntimeError(f'pack_attribute: expected one make_aspath([...]) call for the default path, found {len(found)}')
+    return found[0]
+
+
 def generate() -> dict[str, str]:
     from exabgp.bgp.message.open.asn import AS_TRANS
     from exabgp.bgp.message.update.attribute import attribute as attribute_mod
@@ -73,6 +99,7 @@ def generate() -> dict[str, str]:
             _, size = Family.size.get((afi, safi), (0, 0))
             rd.append((int(afi), int(safi), int(size)))
     nopath = list(bytes(PathInfo.NOPATH.pack_path()))
+    dp4 = 'true' if _default_path_asn4() else 'false'
     lean = f'''namespace Exa.Generated.ExaEncTable
 
 /-- (ID, FLAG) of the attribute classes `AttributeCollection.pack_attribute` can emit for a static route -/
@@ -99,6 +126,9 @@ def classicSafisWithdraw : List Nat := {wd}
 /-- `Family.size`: (afi, safi, size of the zero RD in front of the MP next hop) -/
 def nhRdSize : List (Nat × Nat × Nat) :=
   [{', '.join(f'({a}, {s}, {z})' for a, s, z in rd)}]
+/-- `AttributeCollection.pack_attribute`: the default AS_PATH `[local_asn]` is built with `asn4=True`
+    (read from the AST); when false it is packed with 2-octet AS numbers and a larger local AS raises -/
+def defaultPathAsn4 : Bool := {dp4}
 /-- `PathInfo.NOPATH.pack_path()`: what is sent when ADD-PATH is negotiated and no path-information was given -/
 def noPath : List Nat := {nopath}
 
